@@ -3,6 +3,7 @@ mod c01;
 mod c03;
 mod c03lex;
 mod c05;
+mod c06;
 mod c07;
 mod c12;
 mod c13;
@@ -58,6 +59,7 @@ fn main() {
         "C03" => c03::run(&args),
         "C03L" => c03lex::run(&args),
         "C05" => c05::run(&args),
+        "C06" => c06::run(&args),
         "C07" => c07::run(&args),
         "C12" => c12::run(&args),
         "C13" => c13::run(&args),
